@@ -3,5 +3,5 @@ CONSTANTS
   Names = {"a", "b", "h", "U", "pi"}
   MaxStmts = 12
   MaxDepth = 5
-INVARIANTS ScopeDepthMatchesNesting BackToGlobal IdsDense EmitLong
+INVARIANTS ScopeDepthMatchesNesting BackToGlobal IdsDense MSatisfiesR EmitLong
 CHECK_DEADLOCK FALSE
